@@ -2,7 +2,7 @@
 (* Exhaustive model of one DiHypergraph object; see MC_HG for the scheme.   *)
 EXTENDS DHG, Json
 
-CONSTANTS NN, EdgeIds, MaxUid, MaxEdges, MaxAttr, MaxLevel, Rich, Emit
+CONSTANTS NN, EdgeIds, MaxUid, MaxEdges, MaxAttr, MaxLevel, Rich, WithFreeze, Emit
 SX == INSTANCE SequencesExt
 VARIABLES st, last
 vars == <<st, last>>
@@ -57,7 +57,8 @@ Alphabet ==
   \cup {[O("clear") EXCEPT !.b1 = b] : b \in BOOLEAN}
   \cup {[O("cleanup") EXCEPT !.b1 = b1, !.b5 = b5] : b1 \in BOOLEAN, b5 \in BOOLEAN}
   \cup {O("convert_labels_to_integers")}
-  \cup (IF Rich THEN {[O("set_net_attr") EXCEPT !.k = 1, !.v = <<0, 1>>], O("freeze")} ELSE {})
+  \cup (IF Rich THEN {[O("set_net_attr") EXCEPT !.k = 1, !.v = <<0, 1>>]} ELSE {})
+  \cup (IF Rich \/ WithFreeze THEN {O("freeze")} ELSE {})
 
 Ords(op) == IF op.name \in {"add_edge", "add_edges_from"} THEN Perms(Nodes) ELSE {SortSeqOf(Nodes)}
 
